@@ -74,6 +74,12 @@ class Operation(ABC):
     # this will reduce some overhead on checking for shared memory
     can_return_view: bool = False
 
+    # True for operations whose NumPy counterpart treats Python scalars as weakly
+    # typed operands (NEP 50), i.e. ufuncs and functions implemented in terms of them.
+    # Functions that convert each operand with `numpy.asarray` (stack, einsum, ...)
+    # treat a Python scalar like a float64/int64 array instead.
+    weak_python_scalars: bool = False
+
     # Stores the input tensors that the operation will backprop through.
     variables: Tuple["Tensor", ...]
 
@@ -247,6 +253,7 @@ class Ufunc(Operation, ABC):
 
     numpy_ufunc: np.ufunc
     _supports_where: bool = True
+    weak_python_scalars = True
 
 
 class UnaryUfunc(Ufunc, ABC):
